@@ -356,8 +356,8 @@ static void sched_item(long it,void *vctx){
             MC_INC(c_sched); MC_INC(c_cold);
             for(f=0;f<L;f++) step(&x,e,&m,0,x.W+f,pkt);
             for(f=0;f<x.Lt;f++) step(&x,e,&m,1,x.W+L+f,pkt);
-            if (MC.tier || g_coldwalk){ /* every schedule of the first pass again from the cold start, beginning in silence */
-               set_pass(&x,&g_pass[which][0],1); x.n1=0;
+            if (MC.tier || g_coldwalk){ /* every schedule with <= 2 switch points on a 200 ms grid from the cold start, beginning in silence */
+               { pass_t cp; cp.k=2; cp.grid_q1=2*200; cp.n1=0; cp.mixed=0; set_pass(&x,&cp,1); }   /* <= 2 switch points on a 200 ms grid, first switch anywhere */
                if (v){ memcpy(x.enc[0],base,x.encsz); opus_encoder_ctl(x.enc[0],OPUS_RESET_STATE); } else { OpusEncoder *f0=mk_encoder(&x.c,NULL); memcpy(x.enc[0],f0,x.encsz); free(f0); }
                memset(&x.mon[0],0,sizeof(mon_t)); x.mon[0].cold=1; x.nsw=0;
                walk(&x,0,0,0,0,0,0,0); x.gs=1; } }
